@@ -17,6 +17,10 @@ def rr(rng):
     return Fraction(rng.randint(-9, 9), rng.randint(1, 4))
 
 
+def cmul(a, b):
+    return (a[0] * b[0] - a[1] * b[1], a[0] * b[1] + a[1] * b[0])
+
+
 def fs(x):
     return "%d/%d" % (x.numerator, x.denominator) if x.denominator != 1 else str(x.numerator)
 
@@ -67,7 +71,7 @@ def relation_residual(kind_in, kind_out, n, min_, mout, z0, rng):
 
 
 def run(ctx, broken):
-    ncase = 3 if ctx.tier == "quick" else 25
+    ncase = 4 if ctx.tier == "quick" else 25
     nmax = 6
     rng = ctx.rng
     cases = []
@@ -75,6 +79,14 @@ def run(ctx, broken):
         for n in range(1, nmax + 1):
             for c in range(ncase if n > 1 else 2):
                 m = [(rr(rng), rr(rng)) for _ in range(n * n)]
+                if c == 2 and n > 1 and f not in FUNS_I:
+                    # structured: a singular (rank one) matrix, e.g. a series element between ports
+                    u = [(rr(rng), rr(rng)) for _ in range(n)]
+                    m = [cmul(u[i], u[j]) for i in range(n) for j in range(n)]
+                elif c == 1 and n > 1:
+                    # structured: sparse / star network (only first row, column and diagonal)
+                    m = [(m[i * n + j] if (i == j or i == 0 or j == 0) else (Fraction(0), Fraction(0)))
+                         for i in range(n) for j in range(n)]
                 if c == 0:
                     z0 = [(Fraction(4), Fraction(0))] * n
                 else:
